@@ -23,6 +23,7 @@ import (
 	"fmt"
 	"math/rand"
 	"os"
+	"slices"
 	"sort"
 	"strings"
 	"time"
@@ -231,7 +232,11 @@ type ImportEv struct {
 	Ab  []int    `json:"ab"`
 	Mtb int      `json:"mtb"`
 	Ta  []uint64 `json:"ta"`
-	Aa  []int    `json:"aa"`
+	// Tapos: positional Time(nil) of the rebuilt machine; Order: the order the
+	// importing machine had its names in before Import
+	Tapos []uint64 `json:"tapos"`
+	Order string   `json:"order"`
+	Aa    []int    `json:"aa"`
 	Mta int      `json:"mta"`
 	Err string   `json:"err"`
 }
@@ -983,7 +988,7 @@ func (r *run) overlap() {
 func (r *run) importEv(mk func() *am.Machine) {
 	m := r.mach
 	ev := ImportEv{Ev: "import", Tb: u64(m.Time(nil)), Ab: idx1(r.index, m.ActiveStates(nil)),
-		Mtb: int(m.MachineTick()), Ta: []uint64{}, Aa: []int{}}
+		Mtb: int(m.MachineTick()), Ta: []uint64{}, Tapos: []uint64{}, Aa: []int{}}
 	sort.Ints(ev.Ab)
 	ser, _, err := m.Export()
 	if err != nil {
@@ -995,16 +1000,31 @@ func (r *run) importEv(mk func() *am.Machine) {
 	bt, _ := json.Marshal(ser)
 	var ser2 am.Serialized
 	_ = json.Unmarshal(bt, &ser2)
-	c2 := *r.c
-	c2.PreTick = 0
-	m2 := mkMachine(&c2, m.Id(), nil)
+	// the rebuilt machine has its names in the exporter's order, in the reverse
+	// order, or in the order New() gives them (VerifyStates never called)
+	_, schema := Schema(r.c.Schema)
+	m2 := am.New(context.Background(), schema, &am.Opts{Id: m.Id(), HandlerTimeout: time.Minute})
 	defer m2.Dispose()
+	ev.Order = []string{"same", "reversed", "unverified"}[r.c.ID%3]
+	switch ev.Order {
+	case "same":
+		if err := m2.VerifyStates(r.index); err != nil {
+			panic(err)
+		}
+	case "reversed":
+		rev := append(am.S{}, r.index...)
+		slices.Reverse(rev)
+		if err := m2.VerifyStates(rev); err != nil {
+			panic(err)
+		}
+	}
 	if err := m2.Import(&ser2); err != nil {
 		ev.Err = "import: " + err.Error()
 		r.emit(ev)
 		return
 	}
-	ev.Ta = u64(m2.Time(nil))
+	ev.Ta = u64(m2.Time(r.index))
+	ev.Tapos = u64(m2.Time(nil))
 	ev.Aa = idx1(r.index, m2.ActiveStates(nil))
 	sort.Ints(ev.Aa)
 	ev.Mta = int(m2.MachineTick())
